@@ -70,9 +70,11 @@ package croncontroller
 //@   params recv
 
 // the dynamic configuration source of the controller context
+// ASSUMED: admission and the scheduler read the same cron configuration (curCronKind is the parser kind it denotes)
 //@ extern func iface github.com/furiko-io/furiko/pkg/runtime/controllercontext.Configs.Cron
 //@   params recv
-//@   ensures result1 == nil ==> result0 != nil
+//@   ensures result1 == nil ==> result0 != nil && cron.kindOfCfg(result0) == curCronKind()
+//@   ensures result1 != nil ==> errclass(result1) == 700
 
 //@ pure capOf(n int) int = n > 0 ? n : 0
 
